@@ -1,0 +1,16 @@
+//go:build verif
+
+package time
+
+import "time"
+
+// VerifNow, when set by a simulation harness, supplies the clock read by Now (per-node
+// skew and jumps). Only compiled with the build tag "verif".
+var VerifNow func() (time.Time, bool)
+
+func verifNow() (time.Time, bool) {
+	if VerifNow != nil {
+		return VerifNow()
+	}
+	return time.Time{}, false
+}
